@@ -211,6 +211,18 @@ theorem commands_match_reference :
       r.mandatory.all (fun kc => ref.mandatoryKeys.contains kc.1))) = true := by
   decide +kernel
 
+/-- every argument key of every published class is carried by the AVP (Vendor-ID, code) the reviewed
+    snapshot lists for that key: the class a key is mapped to in the `mandatory` / `optionals` table
+    has that vendor and code in the dictionary (keys the snapshot does not know are unconstrained) -/
+theorem keys_carry_reference_avp :
+    Gen.commandsRef.all (fun ref => Gen.commands.all (fun r =>
+      r.nameKey != ref.nameKey ||
+      (r.mandatory ++ r.optionals).all (fun kc =>
+        match ref.keyAvps.find? (fun ka => ka.1 == kc.1) with
+        | none => true
+        | some ka => Gen.dictionary.any (fun e => e.nameKey == kc.2 && e.vendor.getD 0 == ka.2.1 && e.code == ka.2.2)))) = true := by
+  decide +kernel
+
 -- non-vacuity: the flag rule on the three shapes that occur
 example : flagsOf true (some 16777251) = 0xc0 ∧ flagsOf false (some 0) = 0 ∧ flagsOf false none = 0x40 := by decide
 
